@@ -1064,7 +1064,10 @@ class PDFType3Font(PDFSimpleFont):
         PDFSimpleFont.__init__(self, descriptor, widths, spec)
         self.matrix = cast(Matrix, tuple(list_value(spec.get("FontMatrix"))))
         (_, self.descent, _, self.ascent) = self.bbox
-        (self.hscale, self.vscale) = apply_matrix_norm(self.matrix, (1, 1))
+        # glyph-space widths run along x and heights along y: a sheared
+        # font matrix must not add its c (resp. b) component to the scale
+        (self.hscale, _) = apply_matrix_norm(self.matrix, (1, 0))
+        (_, self.vscale) = apply_matrix_norm(self.matrix, (0, 1))
 
     def __repr__(self) -> str:
         return "<PDFType3Font>"
